@@ -325,3 +325,138 @@ Proof.
     + injection H as <-. exists []. unfold cancel_key. destruct (nth slot (tkeys x) None); split; reflexivity.
   - unfold step_deliver in H. break_match_hyp H; injection H as <-; exists []; split; reflexivity.
 Qed.
+
+(* ---------------- query replies (C14) ---------------- *)
+
+(* one request per connection whose filter accepts the value, addressed to that
+   connection's replier with the mapped request, carrying the requester and
+   consecutive slot numbers in CONNECTION ORDER *)
+Lemma query_deliveries_spec t qs v : forall slot,
+  query_deliveries t slot qs v =
+  map (fun p : nat * qconn =>
+         {| dtgt := DModel (qmodel (snd p)) {| minp := 0; mval := (v + qadd (snd p))%Z;
+                                              mkd := KRequest (Some t) (fst p) (qrep (snd p)) (qradd (snd p)) |};
+            dthrow := true |})
+      (combine (seqn slot (length (filter (fun q => keep_ok (qkeep q) v) qs)))
+               (filter (fun q => keep_ok (qkeep q) v) qs)).
+Proof.
+  induction qs as [|q r IH]; intros slot; cbn [query_deliveries filter]; [reflexivity|].
+  destruct (keep_ok (qkeep q) v); [|apply IH].
+  cbn [length seqn combine map fst snd]. f_equal. apply IH.
+Qed.
+
+(* the requester does not proceed while a reply is missing *)
+Lemma query_waits_for_all b s t x f :
+  nth_error (tasks s) t = Some x -> tfr x = Some f -> fpend f = [] -> fwait f <> [] ->
+  opt_all (fwait f) = false -> step_op b s t = None.
+Proof.
+  intros H1 H2 H3 H4 H5. unfold step_op. rewrite H1, H2, H3.
+  destruct (fwait f); [congruence|]. rewrite H5. reflexivity.
+Qed.
+
+(* when all replies are in, they are yielded in slot (= connection) order *)
+Lemma query_yields_in_order b s t x f m :
+  nth_error (tasks s) t = Some x -> tfr x = Some f -> fpend f = [] -> fwait f <> [] ->
+  opt_all (fwait f) = true -> task_model x = Some m ->
+  step_op b s t = Some (add_log (set_task s t (tset_tfr x (Some (fset_fwait f [])))) (EReplies m (opt_vals (fwait f)))).
+Proof.
+  intros H1 H2 H3 H4 H5 H6. unfold step_op. rewrite H1, H2, H3.
+  destruct (fwait f) eqn:E; [congruence|]. rewrite H5, H6. reflexivity.
+Qed.
+
+(* a reply fills exactly the slot it is addressed to, with the replier's value *)
+Lemma reply_fills_its_slot s rt slot v y f :
+  nth_error (tasks s) rt = Some y -> tfr y = Some f ->
+  nth_error (tasks (deliver_reply s (Some (Some rt, slot, v)))) rt =
+  Some (tset_tfr y (Some (fset_fwait f (lupd (fwait f) slot (Some v))))).
+Proof.
+  intros H1 H2. unfold deliver_reply. rewrite H1, H2. apply set_task_same. apply nth_error_Some. congruence.
+Qed.
+
+(* ---------------- mailboxes only lose their head and gain at the tail (C02) -------- *)
+Lemma net_step_mailbox_order b s l s' m q :
+  net_step b s l = Some s' -> nth_error (boxes s) m = Some q ->
+  exists q', nth_error (boxes s') m = Some q' /\
+    (q' = q \/ (exists g, q = g :: q') \/ (exists g, q' = q ++ [g])).
+Proof.
+  intros H Hq. unfold net_step in H. destruct (err s); [discriminate|].
+  assert (Lm : m < length (boxes s)) by (apply nth_error_Some; congruence).
+  destruct l as [t|t|t i].
+  - unfold step_start in H.
+    destruct (nth_error (tasks s) t) as [x|]; [|discriminate].
+    destruct (tk x) as [m0|]; [|discriminate]. destruct (tfr x); [discriminate|].
+    destruct (tdone x); [discriminate|]. destruct (nth_error (bmodels b) m0) as [sp|]; [|discriminate].
+    destruct (tinit x). { injection H as <-. cbn. eauto. }
+    destruct (nth_error (boxes s) m0) as [[|g rest]|] eqn:EB; try discriminate.
+    assert (G : exists q', nth_error (lupd (boxes s) m0 rest) m = Some q' /\
+                (q' = q \/ (exists g0, q = g0 :: q') \/ (exists g0, q' = q ++ [g0]))).
+    { destruct (Nat.eq_dec m0 m) as [->|NE].
+      - rewrite nth_error_lupd_eq by auto. rewrite EB in Hq. injection Hq as <-. eauto.
+      - rewrite nth_error_lupd_ne by auto. eauto. }
+    destruct (mkd g) as [key|r slot rep radd].
+    + destruct (key_cancelled s key); injection H as <-; cbn; exact G.
+    + destruct (nth rep (mrepliers sp) ([], 0%Z)). injection H as <-; cbn; exact G.
+  - assert (E : boxes s' = boxes s).
+    { unfold step_op in H.
+      destruct (nth_error (tasks s) t) as [x|]; [|discriminate].
+      destruct (tfr x) as [f|]; [|discriminate]. destruct (fpend f); [|discriminate].
+      destruct (fwait f).
+      2:{ destruct (opt_all _); [|discriminate]. destruct (task_model x); injection H as <-; reflexivity. }
+      destruct (frest f) as [|o rest].
+      { injection H as <-.
+        match goal with |- boxes (deliver_reply ?a ?r) = _ => destruct (deliver_reply_boxes a r) as (-> & _) end.
+        destruct (tk x); reflexivity. }
+      destruct o; destruct (task_model x) as [mm|]; try discriminate H;
+        try (break_match_hyp H; injection H as <-; reflexivity).
+      + destruct (sched_request _ _ _ _ _ _ _) as [[s1 code] k] eqn:ES.
+        apply sched_request_frame in ES. destruct ES as (_ & _ & _ & _ & _ & _ & EB & _).
+        injection H as <-. cbn. exact EB.
+      + injection H as <-. unfold cancel_key. destruct (nth slot (tkeys x) None); reflexivity. }
+    rewrite E. eauto.
+  - unfold step_deliver in H.
+    destruct (nth_error (tasks s) t) as [x|]; [|discriminate].
+    destruct (tfr x) as [f|]; [|discriminate].
+    destruct (nth_error (fpend f) i) as [d|]; [|discriminate].
+    destruct (dtgt d) as [m0 g|sk v].
+    + destruct (nth_error (bmodels b) m0) as [sp|]; [|discriminate].
+      destruct (nth_error (boxes s) m0) as [q0|] eqn:EB; [|discriminate].
+      assert (G : forall s0, boxes s0 = boxes s ->
+                 (if Nat.ltb (length q0) (mcap sp)
+                  then Some (set_inflight (set_boxes s0 (lupd (boxes s0) m0 (q0 ++ [g]))) (inflight s0 + 1)%Z)
+                  else None) = Some s' ->
+                 exists q', nth_error (boxes s') m = Some q' /\
+                   (q' = q \/ (exists g0, q = g0 :: q') \/ (exists g0, q' = q ++ [g0]))).
+      { intros s0 E1 X. destruct (Nat.ltb _ _); [|discriminate]. injection X as <-. cbn. rewrite E1.
+        destruct (Nat.eq_dec m0 m) as [->|NE].
+        - rewrite nth_error_lupd_eq by auto. rewrite EB in Hq. injection Hq as <-. eauto.
+        - rewrite nth_error_lupd_ne by auto. eauto. }
+      destruct (mplace sp).
+      * eapply G; [|exact H]; reflexivity.
+      * eapply G; [|exact H]; reflexivity.
+      * destruct (dthrow d); injection H as <-; cbn; eauto.
+    + destruct (nth_error (sinks s) sk); injection H as <-; cbn; eauto.
+Qed.
+
+(* a model task that is running a handler (or its init) does not start another
+   message: one computation at a time per model (C05) *)
+Lemma busy_task_cannot_start b s t x f :
+  nth_error (tasks s) t = Some x -> tfr x = Some f -> step_start b s t = None.
+Proof. intros H1 H2. unfold step_start. rewrite H1. destruct (tk x); auto. rewrite H2. reflexivity. Qed.
+
+(* only the owner task of model m starts messages of mailbox m, and it is the
+   task with index m: messages of m are consumed by step_start on a task whose
+   tk is TKModel m *)
+Lemma start_only_own_mailbox b s t s' x m' q :
+  step_start b s t = Some s' -> nth_error (tasks s) t = Some x ->
+  nth_error (boxes s) m' = Some q -> nth_error (boxes s') m' <> Some q -> tk x = TKModel m'.
+Proof.
+  unfold step_start. intros H H1 Hq NE. rewrite H1 in H.
+  destruct (tk x) as [m|] eqn:E2; [|discriminate]. destruct (tfr x); [discriminate|].
+  destruct (tdone x); [discriminate|]. destruct (nth_error (bmodels b) m) as [sp|]; [|discriminate].
+  destruct (tinit x). { injection H as <-. cbn in NE. congruence. }
+  destruct (nth_error (boxes s) m) as [[|g rest]|] eqn:EB; try discriminate.
+  destruct (Nat.eq_dec m m') as [->|N]; [reflexivity|]. exfalso. apply NE.
+  destruct (mkd g) as [key|r slot rep radd].
+  - destruct (key_cancelled s key); injection H as <-; cbn; rewrite nth_error_lupd_ne by auto; auto.
+  - destruct (nth rep (mrepliers sp) ([], 0%Z)). injection H as <-; cbn; rewrite nth_error_lupd_ne by auto; auto.
+Qed.
